@@ -328,7 +328,13 @@ class Director:
             winners = max(2, min(winners, max(1, len(sels) - 1)))
         afs = self._adjustment_factors(len(sels)) if p["af"] else [None] * len(sels)
         hcs = [0] * len(sels)
-        if p["handicaps"]:
+        if p["handicaps"] == "lines":
+            # handicap market: the same selection id appears on several lines (which settle independently)
+            base = sels[: max(1, len(sels) // 2)]
+            sels = [s_ for s_ in base for _ in (0, 1)]
+            hcs = [h for _ in base for h in (-0.5, 0.5)]
+            afs = (afs + afs)[: len(sels)] if afs[0] is not None else [None] * len(sels)
+        elif p["handicaps"]:
             hcs = [rng.choice((0, -1.5, 2.0)) for _ in sels]
         self.mf = MarketFile(
             market_id,
